@@ -570,7 +570,7 @@ func checkInheritance(c *Ctx, r *Report) {
 		nExplicit, nParent := 0, 0
 		var parentParam *ssa.Parameter
 		for _, p := range fi.SSA.Params {
-			if p.Name() == "parentSecurity" || strings.HasSuffix(p.Type().String(), "[]"+modPath+"/definitions.RouteSecurity") {
+			if paramTyped(p, "[]definitions.RouteSecurity") {
 				parentParam = p
 			}
 		}
@@ -672,7 +672,7 @@ func checkInheritance(c *Ctx, r *Report) {
 			a := sliceOf(cl.Common().Args[1])
 			isParam := false
 			for p := range a.Params {
-				if p.Name() == "parentSecurity" {
+				if paramTyped(p, "[]definitions.RouteSecurity") {
 					isParam = true
 				}
 			}
@@ -690,7 +690,7 @@ func checkInheritance(c *Ctx, r *Report) {
 	checkAnnotationConst(c, r, "C03.d", "core/metadata.GetSecurityFromContext", "GleeceAnnotationSecurity")
 	ruleEach(c, r, "C03.d", "core/metadata.GetSecurityFromContext",
 		func(fi *FuncInfo) func(ast.Expr) bool { return w.rangeOverType(fi, "[]*core/annotations.Attribute") }, "@Security attributes",
-		func(fi *FuncInfo) func(ast.Node) bool { return w.appendTo(fi, identNamed("securities")) }, "append(securities)",
+		func(fi *FuncInfo) func(ast.Node) bool { return w.appendTo(fi, w.resultSlice(fi)) }, "append(securities)",
 		nil, true,
 		"every @Security annotation (with or without scopes) becomes one alternative; the only other exit is an error")
 	// GetDefaultSecurity yields the configured component
